@@ -9,6 +9,8 @@ THEOREMS = ["Portus.Lang.Typing.well_typed_accepted", "Portus.Lang.Typing.well_t
             "Portus.Lang.Typing.wtSrc_accepted", "Portus.Lang.Typing.richSrc_accepted", "Portus.Lang.Typing.wellTyped_eq",
             "Portus.Lang.Typing.wellTyped_mono", "Portus.Lang.Typing.compile_value", "Portus.Lang.Typing.nestedSrc_accepted",
             "Portus.Lang.Typing.nestedLocalSrc_accepted", "Portus.Lang.Typing.hazardSrc_accepted", "Portus.Lang.Typing.finding_known_target_type",
+            "Portus.Lang.Typing.compile_valueG", "Portus.Lang.Typing.compile_flagV", "Portus.Lang.Typing.guardedValueSrc_accepted",
+            "Portus.Lang.Typing.condBindSrc_accepted", "Portus.Lang.Typing.finding_bind_condition", "Portus.Lang.Typing.finding_placeholder_operand",
             "Portus.Lang.Typing.finding_bare_bool_condition", "Portus.Lang.Typing.finding_guarded_target",
             "Portus.C20.layout_same_image", "Portus.C20.comments_same_program", "Portus.C20.rendering_parses",
             "Portus.Lang.parse_render", "Portus.Lang.layout_independent", "Portus.Lang.comments_only_add_none",
@@ -38,11 +40,13 @@ LEVEL_TEXT = ("PARTIAL. Machine-checked proof (Lean 4) of both halves of the pro
               "merge), any spelling of each operator, any numeral of each number, comment lines before events and among statements - "
               "parses back to that tree (parse_render), hence all renderings compile to the same image and register mapping "
               "(layout_same_image), comments never change the program (comments_same_program), and the uid does not either. Partial "
-              "because: WellTyped covers plain binds nested as values (typeOfV threads the environment; hazardous nestings included, since "
-              "the compiler accepts them) but not if/!if/ewma nested as values nor binds inside conditions, which the compiler also "
-              "accepts; and it carries three named restrictions that mirror the compiler (a bare boolean VARIABLE is not accepted as a "
-              "condition - noBareBoolCondition; if/!if/ewma only into declared Report/control variables - guardedTargetDeclared; the value "
-              "of a bind to a known variable has the variable's recorded type - knownTargetType); "
+              "because: WellTyped covers plain and guarded (if / !if / ewma) binds nested as values and binds inside conditions (typeOfG threads the "
+              "environment; hazardous nestings included, since the compiler accepts them) but not chains like (:= x (:= y x)) that leave "
+              "locals untyped, and it is stricter than the compiler on the operand types of if/!if/ewma; it carries five named "
+              "restrictions that mirror the compiler, each with a kernel-checked rejected example (a bare boolean VARIABLE is not accepted "
+              "as a condition - noBareBoolCondition; a condition whose top node is a bind is rejected - noBindCondition; if/!if/ewma only "
+              "into declared Report/control variables - guardedTargetDeclared; a bare (if ..) as an operand is rejected - "
+              "finding_placeholder_operand; the value of a bind to a known variable has the variable's recorded type - knownTargetType); "
               "identifiers the tokenizer splits "
               "(prefixes true/false/volatile/digit/__) are excluded from the rendering relation. The metamorphic differential check "
               "ties it to the real code: generated programs x layouts through the real compiler must be accepted and byte-identical, "
